@@ -125,7 +125,9 @@ func (c *connectionRequest) connect(ctx context.Context) (*connectionResult, err
 			}
 			c.player.handleDisconnectWithReason(result.attemptedConn, reason, false)
 		}
-		c.player.resetInFlightConnection()
+		// The in-flight slot is released by internalConnect for the attempt that claimed it.
+		// Clearing it here would drop another request's in-flight connection when this
+		// request was merely refused as "already in progress".
 	}
 	return result, err
 }
@@ -359,6 +361,25 @@ func (c *connectionRequest) checkServer(server RegisteredServer) (s ConnectionSt
 	p := c.player
 	p.mu.RLock()
 	defer p.mu.RUnlock()
+	return c.checkServerLocked(server)
+}
+
+// claimInFlight re-checks the server and registers conn as the in-flight connection in one
+// critical section, so that concurrent requests can not both pass the check and dial.
+func (c *connectionRequest) claimInFlight(server RegisteredServer, conn *serverConnection) (s ConnectionStatus, ok bool) {
+	p := c.player
+	p.mu.Lock()
+	defer p.mu.Unlock()
+	if s, ok = c.checkServerLocked(server); !ok {
+		return s, false
+	}
+	p.connInFlight = conn
+	return 0, true
+}
+
+// checkServerLocked requires p.mu to be held.
+func (c *connectionRequest) checkServerLocked(server RegisteredServer) (s ConnectionStatus, ok bool) {
+	p := c.player
 	if p.connInFlight != nil || (p.connectedServer_ != nil &&
 		!p.connectedServer_.completedJoin.Load()) {
 		return InProgressConnectionStatus, false
@@ -400,7 +421,9 @@ func (c *connectionRequest) internalConnect(ctx context.Context) (result *connec
 	}
 
 	conn := newServerConnection(server, c.previousServer, c.player)
-	c.player.setInFlightConnection(conn)
+	if status, ok = c.claimInFlight(newDest, conn); !ok {
+		return plainConnectionResult(status, newDest), nil
+	}
 	defer c.resetIfInFlightIs(conn)
 	return conn.connect(ctx)
 }
